@@ -415,7 +415,7 @@ func (c *Ctx) taintedSyms(a Affine) map[string]bool {
 // required mentions parameters of fn, it is enough that it follows at every
 // library call site with the arguments substituted.
 func (c *Ctx) entailedHere(fn *ssa.Function, blk *ssa.BasicBlock, required Affine) (bool, string) {
-	facts := affineFacts(c.guardFacts(fn, blk))
+	facts := c.factsAt(fn, blk)
 	if entails(required, facts) {
 		return true, ""
 	}
@@ -459,7 +459,7 @@ func (c *Ctx) entailedHere(fn *ssa.Function, blk *ssa.BasicBlock, required Affin
 			req = req.add(affineOf(args[idx], 0).scale(coeff), 1)
 		}
 		sites++
-		siteFacts := affineFacts(c.guardFacts(e.Caller.Func, e.Site.Block()))
+		siteFacts := c.factsAt(e.Caller.Func, e.Site.Block())
 		if !entails(req, siteFacts) {
 			return false, "call site " + c.IPos(e.Site) + " in " + name(e.Caller.Func) + " does not establish " + req.String() + " >= 0"
 		}
@@ -470,43 +470,15 @@ func (c *Ctx) entailedHere(fn *ssa.Function, blk *ssa.BasicBlock, required Affin
 	return true, ""
 }
 
-// remLoopIdiom: a -= b inside a loop that exits at a == 0, where the enclosing
-// code established init(a) % b == 0 (then a stays a multiple of b and a >= b).
-func (c *Ctx) remLoopIdiom(s *sink, a, b ssa.Value) bool {
-	facts := c.guardFacts(s.fn, s.instr.Block())
-	aff := affineFacts(facts)
-	aA := affineOf(a, 0)
-	one := aA.clone()
-	one.K--
-	if !entails(one, aff) { // a >= 1
-		return false
-	}
-	// initial value of the cell a is loaded from
-	ld, ok := ir.StripConv(a).(*ssa.UnOp)
-	if !ok || ld.Op != token.MUL {
-		return false
-	}
-	cell := cellOf(ld.X)
-	if cell == nil {
-		return false
-	}
-	var inits []Affine
-	for _, f := range withAnon(topFn(s.fn)) {
-		instrsOf(f, func(i ssa.Instruction) {
-			if st, ok := i.(*ssa.Store); ok && cellOf(st.Addr) == cell && i != s.instr {
-				// skip the decrement itself (stores the subtraction result)
-				if st.Val == s.instr.(ssa.Value) {
-					return
-				}
-				inits = append(inits, affineOf(st.Val, 0))
-			}
-		})
-	}
-	if len(inits) != 1 {
-		return false
-	}
-	bPath := resolvedPath(b)
-	for _, g := range facts {
+// remFact: P % Q == 0 is known (Q named by its access path).
+type remFact struct {
+	P Affine
+	Q string
+}
+
+func remFactsOf(gs []guardFact) []remFact {
+	var out []remFact
+	for _, g := range gs {
 		op := g.cmp.Op
 		if !g.truth {
 			op = negate(op)
@@ -526,11 +498,179 @@ func (c *Ctx) remLoopIdiom(s *sink, a, b ssa.Value) bool {
 		if k, isK := ir.ConstInt(z); !isK || k != 0 {
 			continue
 		}
-		if resolvedPath(rem.Y) == bPath && affineOf(rem.X, 0).equal(inits[0]) {
-			return true
+		out = append(out, remFact{affineOf(rem.X, 0), resolvedPath(rem.Y)})
+	}
+	return out
+}
+
+// remFactsAt: divisibility facts at blk of fn, including those established by
+// library helpers whose success is observed on a dominating edge.
+func (c *Ctx) remFactsAt(fn *ssa.Function, blk *ssa.BasicBlock, depth int) []remFact {
+	out := remFactsOf(c.guardFacts(fn, blk))
+	if depth > 3 {
+		return out
+	}
+	e := c.accept()
+	conds := ir.DominatingConds(fn, blk)
+	if fn.Parent() != nil {
+		for _, f := range withAnon(topFn(fn)) {
+			instrsOf(f, func(i ssa.Instruction) {
+				if mc, ok := i.(*ssa.MakeClosure); ok && mc.Fn == fn && f != fn {
+					out = append(out, c.remFactsAt(f, mc.Block(), depth+1)...)
+				}
+			})
 		}
 	}
-	return false
+	for _, ce := range conds {
+		call := e.observation(fn, ce)
+		if call == nil {
+			continue
+		}
+		callee := ir.Callee(call)
+		if callee == nil || !c.P.InLib(callee) {
+			continue
+		}
+		acc := acceptingReturns(callee)
+		var common []remFact
+		for k, r := range acc {
+			fs := c.remFactsAt(callee, r.Block(), depth+1)
+			if k == 0 {
+				common = fs
+				continue
+			}
+			var keep []remFact
+			for _, a := range common {
+				for _, b := range fs {
+					if a.P.equal(b.P) && a.Q == b.Q {
+						keep = append(keep, a)
+						break
+					}
+				}
+			}
+			common = keep
+		}
+		args := ir.CallArgs(call)
+		for _, rf := range common {
+			P, ok1 := substParams(rf.P, callee, args)
+			q := symAffine(rf.Q, nil)
+			Q, ok2 := substParams(q, callee, args)
+			if !ok1 || !ok2 || len(Q.T) != 1 {
+				continue
+			}
+			for sym := range Q.T {
+				out = append(out, remFact{P, sym})
+			}
+		}
+	}
+	return out
+}
+
+// remLoopIdiom: a -= b inside a loop that exits at a == 0, where the code that
+// produced the initial a established init(a) % b == 0 (then a stays a multiple
+// of b, and a != 0 implies a >= b). a may be a captured cell (closure) or a
+// loop phi whose initial value is a parameter (named helper).
+func (c *Ctx) remLoopIdiom(s *sink, a, b ssa.Value) bool {
+	aA := affineOf(a, 0)
+	one := aA.clone()
+	one.K--
+	if !entails(one, c.factsAt(s.fn, s.instr.Block())) { // a >= 1
+		return false
+	}
+	hasRem := func(fn *ssa.Function, blk *ssa.BasicBlock, init Affine, bPath string) bool {
+		for _, rf := range c.remFactsAt(fn, blk, 0) {
+			if rf.Q == bPath && rf.P.equal(init) {
+				return true
+			}
+		}
+		return false
+	}
+	paramIdx := func(fn *ssa.Function, v ssa.Value) int {
+		for k, p := range fn.Params {
+			if ir.StripConv(v) == ssa.Value(p) {
+				return k
+			}
+		}
+		return -1
+	}
+	// the initial value(s) of a
+	type initV struct {
+		v   ssa.Value
+		fn  *ssa.Function
+		blk *ssa.BasicBlock
+	}
+	var inits []initV
+	switch x := ir.StripConv(a).(type) {
+	case *ssa.UnOp:
+		if x.Op != token.MUL {
+			return false
+		}
+		cell := cellOf(x.X)
+		if cell == nil {
+			return false
+		}
+		for _, f := range withAnon(topFn(s.fn)) {
+			f := f
+			instrsOf(f, func(i ssa.Instruction) {
+				if st, ok := i.(*ssa.Store); ok && cellOf(st.Addr) == cell {
+					if sv, isV := s.instr.(ssa.Value); isV && st.Val == sv {
+						return // the decrement itself
+					}
+					inits = append(inits, initV{st.Val, f, st.Block()})
+				}
+			})
+		}
+	case *ssa.Phi:
+		for k, e := range x.Edges {
+			if sv, isV := s.instr.(ssa.Value); isV && ir.StripConv(e) == sv {
+				continue
+			}
+			inits = append(inits, initV{e, s.fn, x.Block().Preds[k]})
+		}
+	default:
+		return false
+	}
+	if len(inits) == 0 {
+		return false
+	}
+	for _, in := range inits {
+		if k := paramIdx(in.fn, in.v); k >= 0 && in.fn == s.fn {
+			// initial value is a parameter: every library call site must have established the divisibility
+			n := c.P.CallGraph().Nodes[in.fn]
+			if n == nil {
+				return false
+			}
+			sites := 0
+			kb := paramIdx(in.fn, b)
+			for _, e := range n.In {
+				if e.Site == nil || !c.P.InLib(e.Caller.Func) {
+					continue
+				}
+				args := ir.CallArgs(e.Site)
+				if _, isClosure := e.Site.Common().Value.(*ssa.MakeClosure); isClosure {
+					args = e.Site.Common().Args
+				}
+				if k >= len(args) {
+					return false
+				}
+				bPath := resolvedPath(b)
+				if kb >= 0 && kb < len(args) {
+					bPath = resolvedPath(args[kb])
+				}
+				sites++
+				if !hasRem(e.Caller.Func, e.Site.Block(), affineOf(args[k], 0), bPath) {
+					return false
+				}
+			}
+			if sites == 0 {
+				return false
+			}
+			continue
+		}
+		if !hasRem(in.fn, in.blk, affineOf(in.v, 0), resolvedPath(b)) {
+			return false
+		}
+	}
+	return true
 }
 
 // judgeSink decides one sink: (ok, trivial, detail).
@@ -558,7 +698,7 @@ func (c *Ctx) judgeSink(s *sink) (ok bool, trivial bool, detail string) {
 				a = symAffine(resolvedPath(subj), subj)
 				ts = map[string]bool{resolvedPath(subj): true}
 			}
-			facts := affineFacts(c.guardFacts(s.fn, blk))
+			facts := c.factsAt(s.fn, blk)
 			neg := false
 			for sym := range ts {
 				if a.T[sym] < 0 {
@@ -788,4 +928,123 @@ func (c *Ctx) readCone() map[*ssa.Function]bool {
 	}
 	c.readConeCache = cone
 	return cone
+}
+
+// factsAt: the affine facts that hold at block blk of fn: its own dominating
+// comparisons (and those of enclosing functions for closures) plus, for every
+// dominating edge that observes the success of a library helper (err == nil,
+// ok == true), the facts that hold at all of the helper's accepting returns,
+// with the helper's parameters replaced by the arguments of that call.
+func (c *Ctx) factsAt(fn *ssa.Function, blk *ssa.BasicBlock) []Affine {
+	out := affineFacts(c.guardFacts(fn, blk))
+	e := c.accept()
+	for _, ce := range ir.DominatingConds(fn, blk) {
+		call := e.observation(fn, ce)
+		if call == nil {
+			continue
+		}
+		callee := ir.Callee(call)
+		if callee == nil || !c.P.InLib(callee) {
+			continue
+		}
+		out = append(out, c.calleeFacts(callee, ir.CallArgs(call), 0)...)
+	}
+	if parent := fn.Parent(); parent != nil {
+		for _, f := range withAnon(topFn(fn)) {
+			instrsOf(f, func(i ssa.Instruction) {
+				if mc, ok := i.(*ssa.MakeClosure); ok && mc.Fn == fn && f != fn {
+					for _, ce := range ir.DominatingConds(f, mc.Block()) {
+						if call := e.observation(f, ce); call != nil {
+							if callee := ir.Callee(call); callee != nil && c.P.InLib(callee) {
+								out = append(out, c.calleeFacts(callee, ir.CallArgs(call), 0)...)
+							}
+						}
+					}
+				}
+			})
+		}
+	}
+	return out
+}
+
+// calleeFacts: facts common to all accepting returns of callee, in the caller's symbols.
+func (c *Ctx) calleeFacts(callee *ssa.Function, args []ssa.Value, depth int) []Affine {
+	if depth > 3 {
+		return nil
+	}
+	acc := acceptingReturns(callee)
+	if len(acc) == 0 {
+		return nil
+	}
+	var common []Affine
+	for k, r := range acc {
+		fs := c.factsAt(callee, r.Block())
+		if k == 0 {
+			common = fs
+			continue
+		}
+		var keep []Affine
+		for _, a := range common {
+			for _, b := range fs {
+				if a.equal(b) {
+					keep = append(keep, a)
+					break
+				}
+			}
+		}
+		common = keep
+	}
+	var out []Affine
+	for _, f := range common {
+		if g, ok := substParams(f, callee, args); ok {
+			out = append(out, g)
+		}
+	}
+	return out
+}
+
+// substParams rewrites the symbols of a callee-side fact into caller symbols.
+func substParams(f Affine, callee *ssa.Function, args []ssa.Value) (Affine, bool) {
+	out := newAffine()
+	out.K = f.K
+	for sym, coeff := range f.T {
+		replaced := false
+		for k, p := range callee.Params {
+			if k >= len(args) {
+				break
+			}
+			tag := "param:" + p.Name()
+			idx := strings.Index(sym, tag)
+			if idx < 0 {
+				continue
+			}
+			// make sure the match is the whole parameter name
+			end := idx + len(tag)
+			if end < len(sym) && (sym[end] != '.' && sym[end] != ')' && sym[end] != '[') {
+				continue
+			}
+			arg := args[k]
+			if sym == tag {
+				out = out.add(affineOf(arg, 0).scale(coeff), 1)
+				replaced = true
+				break
+			}
+			if _, isPtr := p.Type().Underlying().(*types.Pointer); isPtr {
+				ns := sym[:idx] + ir.AddrPath(ir.StripConv(arg)) + sym[end:]
+				out.T[ns] += coeff
+				out.Sym[ns] = f.Sym[sym]
+				replaced = true
+				break
+			}
+			return Affine{}, false
+		}
+		if !replaced {
+			if strings.Contains(sym, "param:") {
+				return Affine{}, false
+			}
+			out.T[sym] += coeff
+			out.Sym[sym] = f.Sym[sym]
+		}
+	}
+	return out, true
 }
